@@ -433,6 +433,9 @@ class Gen:
 # ------------------------------------------------------------------------------------------------
 # running both sides
 # ------------------------------------------------------------------------------------------------
+INIT_STATUS = set()
+
+
 def run_impl(cases, chunks=None):
     chunks = chunks or C.NCPU
     lines = [json.dumps({'m': c['py']['call'], 'args': c['py']['args']}) for c in cases]
@@ -444,6 +447,9 @@ def run_impl(cases, chunks=None):
         outs = list(ex.map(lambda part: C.run_py('proplib_runner.py', part, timeout=1500), parts))
     res = []
     for part, (o, err) in zip(parts, outs):
+        if o and o[0].startswith('INIT'):
+            INIT_STATUS.add(o[0])
+            o = o[1:]
         if len(o) != len(part):
             o = o + ['CRASH ' + (err.strip().split('\n')[-1] if err.strip() else 'runner died')] * (len(part) - len(o))
         res.extend(o)
@@ -509,26 +515,66 @@ def setup():
     build_model()
 
 
-def load_corpus():
+def ml_of(py, lib):
+    """model request for a python call tree (entry points by CURRENT index, defaults made explicit)"""
+    m = lib.by_name[py['call']]
+    out = []
+    for k, p in enumerate(m['params']):
+        if k < len(py['args']):
+            a = py['args'][k]
+            if 'p' in a:
+                out.append('P' + hexp(expand(totuple(a['p']))))
+            elif 'ax' in a:
+                out.append(f'(A {hexp(expand(totuple(a["ax"])))})')
+            else:
+                out.append(ml_of(a, lib))
+        elif p['default'] is not None:
+            out.append('P' + hexp(mv(p['default'])))
+        else:
+            raise ValueError(f'{py["call"]}: missing argument {p["name"]}')
+    return f'(C {m["idx"]} ' + ' '.join(out) + ')' if out else f'(C {m["idx"]})'
+
+
+def oracle_of(py, lib):
+    """documented conclusion of a python call tree (None if some premise is not of the documented shape)"""
+    m = lib.by_name[py['call']]
+    pat_args, prem = {}, []
+    for k, p in enumerate(m['params']):
+        a = py['args'][k] if k < len(py['args']) else None
+        if p['type'] == 'pat':
+            pat_args[p['name']] = expand(totuple(a['p'])) if a is not None else mv(p['default'])
+        elif a is None:
+            return None
+        elif 'ax' in a:
+            prem.append(expand(totuple(a['ax'])))
+        else:
+            prem.append(oracle_of(a, lib))
+    r = oracle(lib, py['call'], pat_args, prem)
+    return r[0] if r else None
+
+
+def load_corpus(lib):
     out = []
     if os.path.isdir(CORPUS):
         for f in sorted(os.listdir(CORPUS)):
             if f.endswith('.json'):
                 d = json.load(open(os.path.join(CORPUS, f)))
                 for c in d.get('cases', [d]):
-                    out.append(dict(py=totuple_case(c['py']), ml=c['ml'], expect=totuple(c['expect']) if c.get('expect') else None,
-                                    origin='corpus:' + f))
+                    try:
+                        out.append(dict(py=c['py'], ml=ml_of(c['py'], lib), expect=oracle_of(c['py'], lib), sub=[],
+                                        origin='corpus:' + f))
+                    except (KeyError, ValueError) as e:
+                        out.append(dict(py=c['py'], ml='(C 99999)', expect=None, sub=[], origin=f'corpus:{f} (stale: {e})'))
     return out
-
-
-def totuple_case(py):
-    return py
 
 
 def run(tier, seed):
     R = C.Report(CID, tier, seed)
+    for f in os.listdir(C.OUT) if os.path.isdir(C.OUT) else []:
+        if f.startswith(CID + '_violation_') and f.endswith('.json'):
+            os.remove(os.path.join(C.OUT, f))
     rng = C.rng_for(seed, CID)
-    per_method = 40 if tier == 'quick' else 1500
+    per_method = 32 if tier == 'quick' else 1500
     t0 = time.time()
 
     # 1. translate + proof stage
@@ -554,9 +600,9 @@ def run(tier, seed):
         if not ok:
             R.notes.append('extracted model did not build: ' + log[-800:])
         # 2. cases: corpus first, then generated
-        cases = load_corpus()
+        cases = load_corpus(lib)
         G = Gen(lib, rng, R.hist)
-        budget = per_method if not proof_broken else per_method * 2
+        budget = per_method if not proof_broken else per_method * 3 // 2
         for m in idx['methods']:
             for k in range(budget):
                 py, ml, exp, sub = G.call(m['name'], 0, 1 + (k % 3))
@@ -629,11 +675,17 @@ def run(tier, seed):
                                         proof_stage_ok=not proof_broken,
                                         proof_log_tail=None if P['ok'] else P['log'][-1200:],
                                         translation_abort=abort))
+    bad_init = sorted(x for x in INIT_STATUS if x != 'INIT OK')
+    if bad_init:
+        R.notes.append(f'constructing Tautology() raised ({bad_init}); rules examined on an instance without the shipped proofs')
     if problems and not R.violations and not R.known_hit:
         c, i, mo, (sig, desc) = problems[0]
         R.violation(sig, desc, dict(method=c['py']['call'], python_call=c['py'], model_request=c.get('ml'),
                                     expected_conclusion_hex=hexp(c['expect']) if c.get('expect') else None,
                                     implementation=i, model=mo, found_in=c['origin'], attribution='none'))
+    if bad_init and not R.violations and not R.known_hit:
+        R.violation('Tautology(): constructor raises', 'the library module cannot be instantiated: ' + ', '.join(bad_init),
+                    {'python_call': None, 'how': 'proof_generation.tautology.Tautology()', 'status': bad_init})
     if proof_broken and not R.violations and not R.known_hit:
         R.violation('proof-broken', 'translation or Coq proof stage failed and no failing input was found',
                     {'no_failing_input_found': True, 'theorem_or_correspondence': 'Gen/PropLibSpec.v / Props/C10.v',
@@ -689,17 +741,24 @@ def run(tier, seed):
 def replay(path):
     regenerate()
     d = json.load(open(path))
-    r = d.get('replay', d)
-    print(json.dumps({k: r.get(k) for k in ('method', 'python_call', 'model_request', 'expected_conclusion_hex')}, indent=1)[:3000])
-    if not r.get('python_call'):
-        print('no concrete input in this replay file')
-        return 0
-    case = dict(py=r['python_call'], ml=r.get('model_request'), expect=None)
-    out = run_impl([case], chunks=1)
-    print('implementation:', out[0])
+    idx = json.load(open(os.path.join(GEN, 'PropLib.index.json')))
+    lib = Lib(idx)
     ok, log, mlref = build_model()
-    if ok and r.get('model_request'):
-        print('model         :', C.run_lines(mlref, [r['model_request']])[0])
-    print('documented    :', r.get('expected_conclusion_hex'))
-    bad = out[0].split()[0] != 'OK' or (r.get('expected_conclusion_hex') and out[0].split()[1] != r['expected_conclusion_hex'])
-    return 1 if bad else 0
+    calls = [c['py'] for c in d['cases']] if 'cases' in d else [d.get('replay', d).get('python_call')]
+    rc = 0
+    for py in calls:
+        if not py:
+            print('no concrete input in this replay file:', json.dumps(d.get('replay', d))[:1500])
+            continue
+        case = dict(py=py, ml=ml_of(py, lib), expect=oracle_of(py, lib))
+        print('call          :', json.dumps(py)[:1500])
+        out = run_impl([case], chunks=1)
+        print('implementation:', out[0])
+        mo = C.run_lines(mlref, [case['ml']])[0] if ok else None
+        print('model         :', mo)
+        print('documented    :', hexp(case['expect']) if case['expect'] else None)
+        agree, problem = judge(case, out[0], mo or 'MISSING')
+        print('verdict       :', 'VIOLATION ' + problem[0] if problem else ('model/implementation disagree' if not agree else 'ok'))
+        if problem or not agree:
+            rc = 1
+    return rc
